@@ -234,11 +234,22 @@ def handleApplyEdits (j : Json) : Except String Json := do
   let noneApplied := ap == 0 && !edits.isEmpty
   let contentSame := (DriverDoc.docStoriesJ s1.doc).compress == (DriverDoc.docStoriesJ s0.doc).compress
   let commentsGrow : Bool := decide (s0.doc.comments.length ≤ s1.doc.comments.length)
+  -- hypotheses of the comment theorems (C09 / C10): linked comment parts, pairwise distinct comment ids
+  let linkedB (d : Doc.Document) : Bool :=
+    d.comments.map (fun c => c.paras.getLast?.bind (·.paraId)) == d.commentsEx.map (·.paraId) &&
+    d.commentsEx.map (·.paraId) == d.commentsIds.map (fun i => some i.1) &&
+    d.commentsIds.map (·.2) == d.commentsCex.map (·.1)
+  let nodupB (d : Doc.Document) : Bool := (d.comments.map (·.id)).eraseDups.length == d.comments.length
+  let added := s1.doc.comments.length - s0.doc.comments.length
   pure <| Json.mkObj [("doc", DriverDoc.docFullJ s1.doc), ("applied", toJson ap), ("skipped", toJson sk),
     ("concl", Json.mkObj [("hyp_none_applied", toJson noneApplied),
       ("none_applied_and_content_same", toJson (noneApplied && contentSame)),
       ("total_ok", toJson (ap + sk == edits.length)),
-      ("comments_only_grow", toJson commentsGrow)])]
+      ("comments_only_grow", toJson commentsGrow),
+      ("hyp_comment_parts_linked_and_comment_added", toJson (linkedB s0.doc && added > 0)),
+      ("comment_parts_linked_after", toJson (linkedB s0.doc && added > 0 && linkedB s1.doc)),
+      ("hyp_comment_ids_distinct_and_comment_added", toJson (nodupB s0.doc && added > 0 && !s0.doc.comments.isEmpty)),
+      ("comment_ids_distinct_after", toJson (nodupB s0.doc && added > 0 && !s0.doc.comments.isEmpty && nodupB s1.doc))])]
 
 def handleReview (j : Json) : Except String Json := do
   let d0 ← DriverDoc.parseDoc (← j.getObjVal? "doc")
